@@ -1221,6 +1221,10 @@ class Executor:
         for k, v in zip(e.keys, e.values):
             if k is None:
                 src = self.eval(v, env)
+                if isinstance(src, SymDictU) and len(e.keys) == 1:
+                    # {**d}: a shallow copy of a dict with unknown keys (same model as dict(d))
+                    from .models import call_external as _ce
+                    return _ce(self, dict, [src], {}, e)
                 if not isinstance(src, dict):
                     raise Unsupported('** of non-concrete dict')
                 d.update(src)
